@@ -34,6 +34,24 @@ def bsdlike_tables():
     return err, sig, af, sock, sol
 
 
+def windowslike_tables():
+    """A Windows-shaped host: the C runtime's errno numbering (POSIX up to 42, the networking errors from 100 on), the
+    seven signals Windows has, Winsock's address families (AF_INET6 is 23) - and a 32-bit C long (LLP64), see install()."""
+    err = {1: 'EPERM', 2: 'ENOENT', 3: 'ESRCH', 4: 'EINTR', 5: 'EIO', 6: 'ENXIO', 7: 'E2BIG', 8: 'ENOEXEC', 9: 'EBADF',
+           10: 'ECHILD', 11: 'EAGAIN', 12: 'ENOMEM', 13: 'EACCES', 14: 'EFAULT', 16: 'EBUSY', 17: 'EEXIST', 18: 'EXDEV',
+           19: 'ENODEV', 20: 'ENOTDIR', 21: 'EISDIR', 22: 'EINVAL', 23: 'ENFILE', 24: 'EMFILE', 25: 'ENOTTY', 27: 'EFBIG',
+           28: 'ENOSPC', 29: 'ESPIPE', 30: 'EROFS', 31: 'EMLINK', 32: 'EPIPE', 33: 'EDOM', 34: 'ERANGE', 36: 'EDEADLK',
+           38: 'ENAMETOOLONG', 39: 'ENOLCK', 40: 'ENOSYS', 41: 'ENOTEMPTY', 42: 'EILSEQ', 100: 'EADDRINUSE',
+           101: 'EADDRNOTAVAIL', 102: 'EAFNOSUPPORT', 103: 'EALREADY', 104: 'EBADMSG', 105: 'ECANCELED', 106: 'ECONNABORTED',
+           107: 'ECONNREFUSED', 108: 'ECONNRESET', 109: 'EDESTADDRREQ', 110: 'EHOSTUNREACH', 112: 'EINPROGRESS',
+           113: 'EISCONN', 114: 'ELOOP', 115: 'EMSGSIZE', 116: 'ENETDOWN', 117: 'ENETRESET', 118: 'ENETUNREACH',
+           119: 'ENOBUFS', 126: 'ENOTCONN', 128: 'ENOTSOCK', 130: 'EOPNOTSUPP', 138: 'ETIMEDOUT', 140: 'EWOULDBLOCK'}
+    sig = {2: 'SIGINT', 4: 'SIGILL', 8: 'SIGFPE', 11: 'SIGSEGV', 15: 'SIGTERM', 21: 'SIGBREAK', 22: 'SIGABRT'}
+    af = {0: 'AF_UNSPEC', 2: 'AF_INET', 6: 'AF_IPX', 16: 'AF_APPLETALK', 23: 'AF_INET6', 26: 'AF_IRDA', 32: 'AF_BTH'}
+    sock = {1: 'SOCK_STREAM', 2: 'SOCK_DGRAM', 3: 'SOCK_RAW', 4: 'SOCK_RDM', 5: 'SOCK_SEQPACKET'}
+    return err, sig, af, sock, 0xffff
+
+
 ENV_READS = set()
 
 
@@ -163,7 +181,11 @@ def install(host):
     import ctypes, datetime, plistlib, enum, errno, signal, socket, time, locale, tempfile, shutil, subprocess  # noqa
     import click.testing  # noqa
     import construct, pygments, pygments.lexers, pygments.formatters, termcolor, click  # noqa
-    err, sig, af, sock, sol = darwin_tables() if host == 'darwin' else bsdlike_tables() if host == 'bsdlike' else scrambled_tables()
+    err, sig, af, sock, sol = (darwin_tables() if host == 'darwin' else bsdlike_tables() if host == 'bsdlike' else
+                               windowslike_tables() if host == 'windowslike' else scrambled_tables())
+    if host == 'windowslike':
+        # LLP64: C long / unsigned long are 32 bits wide there (ctypes.c_long is ctypes.c_int on Windows)
+        ctypes.c_long, ctypes.c_ulong = ctypes.c_int32, ctypes.c_uint32
     errno.errorcode.clear()
     errno.errorcode.update(err)
     for code, name in err.items():
@@ -173,7 +195,7 @@ def install(host):
     socket.AddressFamily = enum.IntEnum('AddressFamily', {v: k for k, v in af.items()})
     socket.SocketKind = enum.IntEnum('SocketKind', {v: k for k, v in sock.items()})
     socket.SOL_SOCKET = sol
-    signal.NSIG = {'darwin': 32, 'bsdlike': 129}.get(host, 200)      # number of signals: 32 Darwin, 65 Linux, 129 FreeBSD
+    signal.NSIG = {'darwin': 32, 'bsdlike': 129, 'windowslike': 23}.get(host, 200)      # number of signals: 32 Darwin, 65 Linux, 129 FreeBSD
     os.strerror = lambda code: 'host error text %d' % code
     sys.platform = 'darwin' if host == 'darwin' else 'freebsd13'
     os.environ['TZ'] = 'America/Los_Angeles' if host == 'darwin' else 'Asia/Kolkata'
@@ -207,7 +229,9 @@ def workload(seed):
         except Exception as x:
             return f'<raised {type(x).__name__}: {x}>'
         return text
-    codes = list(range(0, 135)) + [200, 4000, 1 << 31]
+    # (the error word is a 64-bit slot: values whose low half alone is a listed code are not that code)
+    codes = list(range(0, 135)) + [200, 4000, 1 << 31, (1 << 32) - 1, 1 << 32, (1 << 32) + 1, (1 << 32) + 35, (1 << 32) + 102,
+                                   (1 << 33) + 2, (1 << 63) + 9, (1 << 64) - 2, (1 << 64) - 1]
     out['errno_read'] = {str(c): render('BSC_read', (3, 0x1000, 16, 0), (c, 16, 0, 0)) for c in codes}
     out['errno_pipe'] = {str(c): render('BSC_pipe', (0, 0, 0, 0), (c, 4, 5, 0)) for c in codes}
     out['errno_open'] = {str(c): render('BSC_open', (0, 0, 0, 0), (c, 4, 5, 0)) for c in (1, 2, 13, 35, 60, 102)}
@@ -249,6 +273,14 @@ def workload(seed):
         out['formatted_kevents_digest'] = core.digest('\n'.join(PyKdebugParser().formatted_kevents(io.BytesIO(data))))
     except Exception as x:
         out['formatted_traces'] = [f'<raised {type(x).__name__}: {x}>']
+    # the same dump cut short (inside the header, the thread map, a record): whatever the tool does with the rest - the
+    # events it still reports, the error it raises - must not follow the host or the interpreter's flags
+    for cut in (0, 1, 100, 0x11f, 0x120 + 13, len(data) - 64 * 3 - 1, len(data) - 33, len(data) - 1):
+        try:
+            lines = list(PyKdebugParser().formatted_kevents(io.BytesIO(data[:cut])))
+            out.setdefault('cut_dump', {})[str(cut)] = f'{len(lines)} events, digest ' + core.digest('\n'.join(lines))
+        except Exception as x:
+            out.setdefault('cut_dump', {})[str(cut)] = f'<cut dump: {type(x).__name__}>'
     # coloured trace lines (the tool's default): every listed error code, signal, family x type in one dump
     listed = []
     for c in range(0, 135):
